@@ -79,7 +79,9 @@ func (f *CSVFormatter) prepareLine(line interface{}) map[string]interface{} {
 	if l.Kind() == reflect.Map {
 		m := map[string]interface{}{}
 		for _, name := range l.MapKeys() {
-			m[name.Interface().(string)] = l.MapIndex(name).Interface()
+			// The keys are not always strings (SpouseChildren is keyed by
+			// individual).
+			m[fmt.Sprint(name.Interface())] = l.MapIndex(name).Interface()
 		}
 
 		return m
